@@ -317,8 +317,56 @@ def r4_orientation(ctx):
     L = Canon(f.node).lines(False, True)
     ok = unify(L, ["?sn += (?n,)", "?ix = [?idx[?m] for ?m in ?sn]", "?pm = ?pm[?ix, :][:, ?ix]", "return (?sn, ?pm)"]) is not None
     ctx.anchor(ok, "C15.R4", f, f.node, "rows and columns permuted into the emitted order", "re-indexing of the path matrix into the emitted order", construct="re-indexing")
-    ok = unify(L, ["?n = ?q.get()", "?da[?c] = ?da[?c].difference({?n})", "if len(?da[?c]) == 0", "?q.put(?c)"]) is not None
-    ctx.anchor(ok, "C15.R4", f, f.node, "a node is emitted only once all its direct ancestors were", "Kahn condition (remaining ancestors == 0)", construct="Kahn condition")
+    def emptiness(cond, coll):
+        """does the test text `cond` hold exactly when the collection `coll` is empty?  True / False / None (not a test on its size)"""
+        import re as _re
+        c = cond.strip()
+        sizes = (0, 1, 2, 3)
+        try:
+            e = ast.parse(c, mode="eval").body
+        except SyntaxError:
+            return None
+        from ..normalform import eval_guard, GuardUnsupported
+        out = []
+        for k in sizes:
+            try:
+                def hook(call):
+                    if U(call.func) == "len" and len(call.args) == 1 and U(call.args[0]) == coll:
+                        return k
+                    if U(call.func) == "bool" and len(call.args) == 1 and U(call.args[0]) == coll:
+                        return k > 0
+                    return NotImplemented
+                v = eval_guard(e, {coll: k > 0} if isinstance(e, (ast.UnaryOp, ast.Name)) else {}, hook)
+            except (GuardUnsupported, TypeError):
+                return None
+            out.append(bool(v))
+        return out == [k == 0 for k in sizes]
+
+    # a node is emitted once its last direct ancestor was: the queue is seeded with the nodes without ancestors, and fed when the remaining set gets empty
+    def cond_after(b, i_key, put):
+        """the test on the line following line `i_key`, when the line after it is the expected `put`"""
+        i = b[i_key]
+        if i + 2 < len(L) and L[i + 1].startswith("if ") and L[i + 2] == put:
+            return L[i + 1][3:]
+        return None
+
+    b1 = unify(L, ["?n = ?q.get()", "?da[?c] = ?da[?c].difference({?n})"])
+    if b1 is not None:
+        b1["cond"] = cond_after(b1, "#1", f"{b1['q']}.put({b1['c']})")
+    v1 = emptiness(b1["cond"].replace(b1["da"] + "[" + b1["c"] + "]", "S"), "S") if b1 is not None and b1["cond"] else None
+    if v1 is False:
+        ctx.violation("C15.R4", f, f.node, f"a child is queued when `{b1['cond']}` (source names: remaining direct ancestors): not exactly when its last direct ancestor has been emitted - "
+                      "nodes are emitted before an ancestor, or never", construct="Kahn condition")
+    else:
+        ctx.anchor(v1 is True, "C15.R4", f, f.node, "a node is emitted only once all its direct ancestors were", "Kahn condition (remaining ancestors == 0)", construct="Kahn condition")
+    b0 = unify(L, ["for (?da.items(), (?n, ?s))", "?n = ?q.get()"])
+    if b0 is not None:
+        b0["cond"] = cond_after(b0, "#0", f"{b0['q']}.put({b0['n']})")
+    v0 = emptiness(b0["cond"].replace(b0["s"], "S"), "S") if b0 is not None and b0["cond"] else None
+    if v0 is False:
+        ctx.violation("C15.R4", f, f.node, f"the work list is seeded with the nodes for which `{b0['cond']}` (canonical names): not exactly the nodes without direct ancestor", construct="Kahn seeding")
+    else:
+        ctx.anchor(v0 is True, "C15.R4", f, f.node, "the work list starts from exactly the nodes without direct ancestor", "seeding of the work list (no direct ancestor)", construct="Kahn seeding")
     g = ix.func(DAG, f"{CLS}.compute_sorted_children_and_ancestors", "C15.R4")
     a = g.node.args.args
     pmn = a[1].arg if len(a) > 1 else "path_matrix"
